@@ -6,7 +6,7 @@
    Case format (one operation per line, strings hex-encoded with a leading 'x', NULL = '-'):
      H id | new o | kv k n (key i|o val)* | add o ty chr name var hasarg kv init | sub o s prefix
      parse o argc args.. | load o f | loadargs o f | save o f | file f bytes | errno n
-     seti v z | setd v bits | sets v s | destroy o | summary o | strtol s | E                         */
+     seti v z | setd v bits | sets v s | destroy o | summary o | strtol s | dirty c | E               */
 #include <sc.h>
 #include <sc_options.h>
 #include <sc_keyvalue.h>
@@ -108,11 +108,25 @@ int __wrap_getopt_long (int argc, char *const *argv, const char *optstring, cons
   if (longind != NULL) *longind = li;
   if (recording) {
     if (c == -1) printf (" e");
-    else if (c == '?') printf (" q%d", optopt);
+    /* glibc stores the offending byte through a plain `char`: 0xad arrives as -83; the model counts bytes 0..255 */
+    else if (c == '?') printf (" q%d", optopt < 0 ? optopt + 256 : optopt);
     else if (c == 0) { printf (" l%d:", li >= 0 ? longopts[li].val : -1); puthex (optarg); }
     else { printf (" s%d:", c); puthex (optarg); }
   }
   return c;
+}
+
+/* Overwrites the part of the stack the next call will use with the byte c.  sc_options_parse hands its local
+   `char optstring[BUFSIZ]` to getopt_long; when no option has a short name nothing is ever written to it (F-C17l),
+   so what getopt_long sees is whatever an earlier call left there.  Every parse therefore starts from a stack of
+   zero bytes (deterministic, and equal to the empty option string the code intends); the operation `dirty c`
+   makes the NEXT parse start from a stack full of the byte c instead. */
+static int          next_fill;
+static void __attribute__ ((noinline)) fill_stack (int c)
+{
+  char buf[65536];
+  memset (buf, c, sizeof buf);
+  __asm__ volatile ("" : : "r" (buf) : "memory");
 }
 
 static int the_callback (sc_options_t * opt, const char *arg, void *data)
@@ -224,6 +238,8 @@ int main (int argc, char **argv)
       for (i = 0; i < ac; ++i) av[i] = keepit (unhex (tok[3 + i], NULL));
       printf ("EV");
       recording = 1;
+      fill_stack (next_fill);
+      next_fill = 0;
       ret = sc_options_parse (sc_package_id, SC_LP_ERROR, obj[o], ac, av);
       recording = 0;
       saveok[o] = ret >= 0;
@@ -264,6 +280,7 @@ int main (int argc, char **argv)
       sc_options_print_summary (sc_package_id, SC_LP_ERROR, obj[o]);
       sc_options_print_usage (sc_package_id, SC_LP_ERROR, obj[o], "ARG1\nARG2");
     }
+    else if (!strcmp (op, "dirty")) next_fill = atoi (tok[1]);
     else if (!strcmp (op, "strtol")) {
       char *s = unhex (tok[1], NULL);
       long l;
